@@ -151,6 +151,7 @@ fn cmd_check(args: &Args) -> i32 {
         cap = args.max_wall_s;
     }
     let thorough = args.tier == "thorough";
+    gen::THOROUGH.store(thorough, Ordering::Relaxed);
     println!("VERIF_SEED={} property={} tier={} cases={} jobs={}", args.seed, id, args.tier, ncases, args.jobs);
     if id == "C20" {
         match carrier::selfcheck() {
